@@ -9,7 +9,7 @@ from props import _e_util as U
 THEOREMS = ["C05.paths_insert", "C05.insert_keeps_ids", "C05.insert_returns", "C05.different_root_refused",
             "C05.strip_invariant", "C05.sep_invariant", "C05.no_dup_mode", "C05.attrs_exact", "C05.new_node_attrs",
             "C05.nulls_dropped_in_rows", "C05.children_first_appearance", "C05.branchOf_written", "C05.fold_exact", "C05.dict_to_tree_exact",
-            "C05.rows_to_tree_exact"]
+            "C05.rows_to_tree_exact", "C05.strip_invariant_multi", "C05.sep_invariant_multi"]
 PROOF_IMPORTS = ["BigtreeProofs.Properties.C05"]
 FNS = ["addpath", "adddict", "addpd", "addpl", "list", "dict", "pd", "pl"]
 ADD_FNS = ("addpath", "adddict", "addpd", "addpl")
